@@ -1478,6 +1478,14 @@ func (sc *serverConn) sendData(strm *Stream) bool {
 			}
 
 			if len(strm.pendingData) == 0 {
+				// The reader ended on a read that returned nothing, so the last
+				// frame went out before anybody knew it was the last one. The
+				// peer is still owed END_STREAM, which an empty DATA frame may
+				// carry whatever the windows say.
+				if strm.pendingEnd {
+					sc.writeEndStream(strm.ID())
+				}
+
 				break
 			}
 		}
@@ -1517,11 +1525,30 @@ func (sc *serverConn) sendData(strm *Stream) bool {
 
 		strm.window -= step
 		sc.clientWindow -= step
+
+		// END_STREAM has gone out: reading the body stream again would only
+		// find its end a second time.
+		if end {
+			break
+		}
 	}
 
 	sc.closeBodyStream(strm)
 
 	return true
+}
+
+// writeEndStream closes our side of a stream with an empty DATA frame.
+func (sc *serverConn) writeEndStream(id uint32) {
+	fr := AcquireFrameHeader()
+	fr.SetStream(id)
+
+	data := AcquireFrame(FrameData).(*Data)
+	data.SetEndStream(true)
+
+	fr.SetBody(data)
+
+	sc.write(fr)
 }
 
 // flushStreams resumes any streams whose buffered response data was blocked on
